@@ -25,6 +25,12 @@ TEXT = {
             "a worker that has queued its result and is only exiting is not counted as executing"),
     'C05': ('exploration', '7 C05', "At every resting point (S1: each wait(); S2: >=3 quiet polls with every live worker parked inside run()) the number of executing tasks must equal the capacity model min(max_workers, sum over types of min(max_parallel, runnable)).",
             "a resting point is a state of the simulation, not a duration; a dead worker may take two polls to be noticed, which is why three quiet polls are required"),
+    'C06': ('exploration', '7 C06', "Histories first run -> second run -> (1 in 6) third run in a fresh interpreter started with another PYTHONHASHSEED, with independently drawn backends (serial / S1 / simulated fork / simulated spawn) and virtual, ticking or real clocks for the first run: every executed cacheable node must be reported cached, the later runs must return equal values without any run() begin for cached nodes, and result_meta must equal the originally recorded start and duration. Values are unique per node, so an entry stored under or loaded from another key cannot pass.",
+            "the second and third runs use a different context generation so that a re-execution is visible in the value"),
+    'C08': ('exploration', '7 C08', "Stateful model check: generated histories (<= 10 operations: run, run with bust_cache, uncache, cached_tasks, probe-run of the listed tasks, new Lab object) over a generated universe of <= 7 nodes including cache=None types, on LocalStorage, FsspecStorage over fsspec's LocalFileSystem and MemoryFileSystem, and storage=None; after every operation is_cached of every node, the cached_tasks listing, executed sets and returned values are compared with a plain reference dictionary and planner.",
+            "equality is on public observations (is_cached, cached_tasks, returned values, execution records), not on directory listings"),
+    'C09': ('exploration', '7 C09', "The C08 history machine with universes drawn from the supported parameter grammar (empty / unicode / JSON-special strings, big and negative ints, +-inf floats, None, enum members, nested tuples / lists / string-keyed dicts, nested tasks), a prefix-named pair of task types, a same-named type in a second module and two cache formats in one storage: cached_tasks must return each cached task exactly once, equal to the original, with the same cache_key and the stored result_meta, nothing of other types, and running the returned tasks must load the stored values without executing.",
+            "NaN parameters are excluded (a task holding NaN is not equal to a rebuilt copy of itself under any implementation)"),
     'C10': ('exploration', '7 C10', "Any subset of nodes raises or dies (worker killed before its result is queued); continue_on_failure both ways; oracle = reference planner with transitive failure: returned set, values, cached entries, exception type and cause, nothing started after the raise.",
             "death points inside the save are excluded here (C13's subject)"),
     'C11': ('exploration', '7 C11', "Liveness as bounded progress: S1 flags wait() with nothing in flight (spin) and caps wait() calls; S2 requires run_tasks to finish within 10 polling rounds of the last worker event and aborts on deadlock / 20 000 scheduler steps / 600 virtual seconds; random kills, kills after the result was queued, max_workers=1, progress displays on and off.",
